@@ -3,6 +3,8 @@ import NurbsVerif.Lemmas.InsertModel
 import NurbsVerif.Lemmas.InsertAll
 import NurbsVerif.Lemmas.RefineObj
 import NurbsVerif.Lemmas.RefineDyadic
+import NurbsVerif.Lemmas.VolRefineObj
+import NurbsVerif.Lemmas.InsertObjExamples
 
 /-!
 # C05  Knot refinement never changes the shape
@@ -355,5 +357,80 @@ example : DirHyp exSurf 0 2 (1/10000000) :=
 example : (refineKnotvector exSurf [2, 1] (1/10000000)).2 = true ∧
     (refineKnotvector exSurf [2, 1] (1/10000000)).1.kvs
       = [[0,0,1/4,1/2,3/4,1,1], [0,0,0,1/4,1/4,1/2,1/2,3/4,3/4,1,1,1]] := by decide +kernel
+
+/-! ## (E) volumes
+
+`VolWF d S`: three directions, each with a well-formed knot vector (sorted, right length, enough
+control points, non-empty last span), net of `su·sv·sw` points of dimension `d` in the layout
+`v + sv·(u + su·w)`.  `refineDir` / `refine_knotvector` gather every iso-curve of the refined
+direction (`mapVol`), refine it and scatter it back. -/
+
+/-- **Volumes, any one direction** (`refineDir … dir`, `dir = 0, 1, 2` for u, v, w): the result is a
+    well-formed volume, the other two directions are untouched, the refined direction has `|X|` more
+    control points and the same domain, and EVERY volume point – spans found by the library's search in
+    all three directions, every parameter triple of the domain (ends included), every coordinate – is
+    unchanged. -/
+theorem refineDir_preserves_volume (d : ℕ) (S : Shape K) (hS : VolWF d S) (dir : ℕ) (hdir : dir < 3)
+    (density : ℕ) (tol : K) (h0 : 0 ≤ tol)
+    (hend : ∀ i, S.size dir ≤ i → fnOf (S.kv dir) i = fnOf (S.kv dir) (S.size dir))
+    (hsep : SepBy tol (S.kv dir ++ refineKnots (S.deg dir) (S.kv dir) density))
+    (S' : Shape K) (h : refineDir S dir density tol = some S') :
+    VolWF d S' ∧ S'.degs = S.degs ∧ (∀ d', d' ≠ dir → S'.kv d' = S.kv d' ∧ S'.size d' = S.size d') ∧
+    S'.size dir = S.size dir + (refineX (S.deg dir) (S.kv dir) density tol).length ∧
+    (∀ i, i < 3 → fnOf (S'.kv i) (S'.deg i) = fnOf (S.kv i) (S.deg i) ∧ fnOf (S'.kv i) (S'.size i) = fnOf (S.kv i) (S.size i)) ∧
+    ∀ (u v w : K), fnOf (S.kv 0) (S.deg 0) ≤ u → u ≤ fnOf (S.kv 0) (S.size 0) →
+      fnOf (S.kv 1) (S.deg 1) ≤ v → v ≤ fnOf (S.kv 1) (S.size 1) →
+      fnOf (S.kv 2) (S.deg 2) ≤ w → w ≤ fnOf (S.kv 2) (S.size 2) → ∀ j,
+      (volumePoint (S'.deg 0) (S'.deg 1) (S'.deg 2) (fnOf (S'.kv 0)) (fnOf (S'.kv 1)) (fnOf (S'.kv 2))
+          (S'.size 0) (S'.size 1) (S'.size 2) S'.net u v w).getD j 0
+        = (volumePoint (S.deg 0) (S.deg 1) (S.deg 2) (fnOf (S.kv 0)) (fnOf (S.kv 1)) (fnOf (S.kv 2))
+          (S.size 0) (S.size 1) (S.size 2) S.net u v w).getD j 0 :=
+  let r := refineDir_volume d S hS dir hdir density tol h0 ⟨hend, hsep⟩ S' h
+  ⟨r.1.wf, r.2.1, r.2.2.2.1, r.2.2.2.2, r.1.ends, r.1.eval⟩
+
+/-- **`refine_knotvector` on a volume – any subset of the three directions, any densities – leaves
+    every evaluated point unchanged**; the result is a well-formed volume over the same domain with the
+    same degrees, whether or not the call completed.  `DirHyp S dir density tol` (clamped end and
+    tolerance separation for direction `dir`) is required only for the selected directions, and is
+    stated on the ORIGINAL object. -/
+theorem refineKnotvector_preserves_volume (d : ℕ) (S : Shape K) (hS : VolWF d S) (dens : List ℕ) (tol : K)
+    (h0 : 0 ≤ tol)
+    (hd : ∀ dir, dir < 3 → dens.getD dir 0 ≠ 0 → DirHyp S dir (dens.getD dir 0) tol)
+    (u v w : K) (hu1 : fnOf (S.kv 0) (S.deg 0) ≤ u) (hu2 : u ≤ fnOf (S.kv 0) (S.size 0))
+    (hv1 : fnOf (S.kv 1) (S.deg 1) ≤ v) (hv2 : v ≤ fnOf (S.kv 1) (S.size 1))
+    (hw1 : fnOf (S.kv 2) (S.deg 2) ≤ w) (hw2 : w ≤ fnOf (S.kv 2) (S.size 2)) (j : ℕ) :
+    VolWF d (refineKnotvector S dens tol).1 ∧ (refineKnotvector S dens tol).1.degs = S.degs ∧
+    (∀ i, i < 3 →
+      fnOf ((refineKnotvector S dens tol).1.kv i) ((refineKnotvector S dens tol).1.deg i) = fnOf (S.kv i) (S.deg i) ∧
+      fnOf ((refineKnotvector S dens tol).1.kv i) ((refineKnotvector S dens tol).1.size i) = fnOf (S.kv i) (S.size i)) ∧
+    (volumePoint ((refineKnotvector S dens tol).1.deg 0) ((refineKnotvector S dens tol).1.deg 1)
+        ((refineKnotvector S dens tol).1.deg 2)
+        (fnOf ((refineKnotvector S dens tol).1.kv 0)) (fnOf ((refineKnotvector S dens tol).1.kv 1))
+        (fnOf ((refineKnotvector S dens tol).1.kv 2))
+        ((refineKnotvector S dens tol).1.size 0) ((refineKnotvector S dens tol).1.size 1)
+        ((refineKnotvector S dens tol).1.size 2) (refineKnotvector S dens tol).1.net u v w).getD j 0
+      = (volumePoint (S.deg 0) (S.deg 1) (S.deg 2) (fnOf (S.kv 0)) (fnOf (S.kv 1)) (fnOf (S.kv 2))
+          (S.size 0) (S.size 1) (S.size 2) S.net u v w).getD j 0 :=
+  let r := refineKnotvector_volume' d S hS dens tol h0 hd
+  ⟨r.1.wf, r.2.1, r.1.ends, r.1.eval u v w hu1 hu2 hv1 hv2 hw1 hw2 j⟩
+
+/-! ### non-vacuity of the volume hypotheses -/
+
+/-- a volume of degrees (1, 1, 2) and sizes 2 × 2 × 4 satisfies `VolWF` … -/
+example : VolWF 3 exVolQ := exVolQ_wf
+
+/-- … and the direction hypotheses in all three directions … -/
+example : DirHyp exVolQ 0 1 (1/10000000) :=
+  ⟨clampedEnd_of_drop _ _ (by decide) (by decide +kernel), by unfold SepBy; decide +kernel⟩
+example : DirHyp exVolQ 1 2 (1/10000000) :=
+  ⟨clampedEnd_of_drop _ _ (by decide) (by decide +kernel), by unfold SepBy; decide +kernel⟩
+example : DirHyp exVolQ 2 1 (1/10000000) :=
+  ⟨clampedEnd_of_drop _ _ (by decide) (by decide +kernel), by unfold SepBy; decide +kernel⟩
+
+/-- … and `refine_knotvector` refines all three directions of it -/
+example : (refineKnotvector exVolQ [1, 1, 1] (1/10000000)).2 = true ∧
+    (refineKnotvector exVolQ [1, 1, 1] (1/10000000)).1.kvs
+      = [[0,0,1/2,1,1], [0,0,1/2,1,1], [0,0,0,1/4,1/4,1/2,1/2,3/4,3/4,1,1,1]] ∧
+    (refineKnotvector exVolQ [1, 1, 1] (1/10000000)).1.sizes = [3, 3, 9] := by decide +kernel
 
 end C05
